@@ -462,6 +462,31 @@ func (c *CEnv) evalCall(n *CCall) (TT, error) {
 			e.assume(tTrue, implies(isT, T(SBool, "(not (= %s 0))", e.unbox(t, x.Term).S)))
 		}
 		return TT{isT, nil}, nil
+	case "addr":
+		// addr(p.f): the address of field f of the object p points to (stable: a function of p)
+		selx, ok := n.Args[0].(*CSel)
+		if !ok {
+			return TT{}, fmt.Errorf("addr() needs a field selection")
+		}
+		xv, err := c.eval(selx.X)
+		if err != nil {
+			return TT{}, err
+		}
+		pt, ok := xv.T.Underlying().(*types.Pointer)
+		if !ok {
+			return TT{}, fmt.Errorf("addr(): %s is not a pointer", selx.X)
+		}
+		stt, ok := pt.Elem().Underlying().(*types.Struct)
+		if !ok {
+			return TT{}, fmt.Errorf("addr(): not a struct")
+		}
+		for i := 0; i < stt.NumFields(); i++ {
+			if stt.Field(i).Name() == selx.F {
+				key, _, ft := e.fieldKey(pt.Elem(), i)
+				return TT{e.fieldPtr(key, xv.Term), types.NewPointer(ft)}, nil
+			}
+		}
+		return TT{}, fmt.Errorf("addr(): no field %s", selx.F)
 	case "arr":
 		// the backing array of a slice as a value
 		x, err := c.eval(n.Args[0])
